@@ -147,7 +147,21 @@ def model_cmp(a, b):
 SIGMA5 = ["0", "1", "a", ".", "~", "^"]     # reduced alphabet for the length-5 universe (thorough)
 
 
+def long_universe():
+    """Segments far longer than the enumerated universe reaches: digit runs beyond 64 bits, many leading zeros,
+    long alpha runs, many segments, many markers (one symbol per counter/length shortcut in the algorithm)."""
+    big = "98765432109876543210"
+    out = ["", "0", "00000000000000000000", big, "0" * 20 + big, big + "0", big[:-1] + "1", "1" + "0" * 20, "9" * 20, "9" * 21,
+           big + "." + big, big + ".0" + big, big + "a", "a" + big, "a" * 30, "a" * 29 + "b", "a" * 31, "A" * 30,
+           ".".join(["1"] * 30), ".".join(["1"] * 31), ".".join(["1"] * 30) + "a", "~" * 10, "~" * 11, "^" * 10, "^" * 11,
+           "1" + "~" * 10, "1" + "^" * 10, "1~" + big, "1^" + big, "1." * 30, "1." * 30 + "~", "1." * 30 + "^",
+           "é" * 20, "1" + "é" * 20 + "2", big + "é" + big, "1_" * 20 + "1", "1-" * 20 + "1", "1+" * 20 + "1"]
+    return out
+
+
 def universe(max_len):
+    if max_len == "long":
+        return long_universe()
     if max_len == 5:
         return list(enumx.text_strings(SIGMA5, 5))
     return list(enumx.text_strings(SIGMA, max_len))
@@ -188,6 +202,7 @@ def units(tier, seed):
     rows = 64 if tier == "quick" else 48
     us = [{"part": "reference-validation"}]
     us += [{"part": "vercmp", "lo": lo, "hi": min(n, lo + rows)} for lo in range(0, n, rows)]
+    us += [{"part": "vercmp", "lo": 0, "hi": len(long_universe()), "max_len": "long"}]
     if tier == "thorough":
         n5 = len(universe(5))
         us += [{"part": "vercmp", "lo": lo, "hi": min(n5, lo + 40), "max_len": 5} for lo in range(0, n5, 40)]
@@ -234,6 +249,10 @@ class _EVR(object):
 
 
 def mk_rpm(InstalledRpm, name, e, v, r, how):
+    if how == "package":
+        # the documented package-string form name-[epoch:]version-release.arch (third construction channel)
+        ep = "" if e in (None, "(none)") else "%s:" % e
+        return InstalledRpm.from_package("%s-%s%s-%s.x86_64" % (name, ep, v, r))
     if how == "dict":
         d = {"name": name, "version": v, "release": r, "arch": "x86_64"}
         if e is not None:
@@ -453,7 +472,7 @@ def run_unit(unit, tier):
 
     if part == "operators":
         u = evr_universe40()
-        pairs = itertools.product(range(len(u)), range(len(u)), ["dict", "json"], [("pkg", "pkg"), ("pkg", "other")])
+        pairs = itertools.product(range(len(u)), range(len(u)), ["dict", "json", "package"], [("pkg", "pkg"), ("pkg", "other")])
         for (i, j, how, names) in enumx.shard(pairs, unit["shard"], unit["of"]):
             case = {"kind": "evr", "l": u[i], "r": u[j], "how": how, "names": list(names)}
             try:
